@@ -1580,3 +1580,19 @@ for _nw, _we in ((1, False), (1, True), (2, True)):
            'requires': [], 'ensures': _case_ensures(_nw, _we), 'raises': [], 'serves': ['C13']}
     REG.add('sqlparse.sql.Case.get_cases', _case, type('c13_get_cases', (), _ns))
     C13_SHAPE_CASES.append(('sqlparse.sql.Case.get_cases', _case))
+
+
+class _GetCasesCallsite:
+    """call-site form of Case.get_cases(): on a receiver with an explicit children list (the verified shape cases above)
+    the body is executed in place (its loop over the known children is unrolled)"""
+
+    @staticmethod
+    def model(ex, self_val, args, kw, st):
+        if not (isinstance(self_val, Rec) and st.objs[self_val.oid].get('__shape__') is True):
+            raise OutsideSubset('Case.get_cases on a node whose children are not known')
+        from pyvc.models import call_repo_inline, repo_fn_node
+        q = 'sqlparse.sql.Case.get_cases'
+        return call_repo_inline(ex, q, repo_fn_node(q), self_val, args, kw, st)
+
+
+REG['sqlparse.sql.Case.get_cases'] = _GetCasesCallsite
